@@ -32,6 +32,8 @@ def run(tier):
         got = rr.get(rn, ["missing"])
         if len(got) < 2 or got[1] != want:
             ck.violation("regression:" + rn, "%s no longer behaves as its source prescribes: %s (expected %s)" % (f, got[:2], want), open(os.path.join(C.VERIF, f)).read())
+    from . import c12
+    c12.check_leaks(ck)
     from .. import cfgstream
     ncfg, cstats, csizes, cbad = cfgstream.run(ck, 300 if tier == "quick" else 20000, ck.seed + 2)
     if not proof_ok:
